@@ -8,8 +8,9 @@ import (
 
 func TestReplay(t *testing.T) {
 	verif.ReplayMain(map[string]func(){
-		"HarnessBodySize":      HarnessBodySize,
-		"HarnessHostileClient": HarnessHostileClient,
-		"HarnessHostileServer": HarnessHostileServer,
+		"HarnessBodySize":                 HarnessBodySize,
+		"HarnessHostileClient":            HarnessHostileClient,
+		"HarnessHostileClientLiveChannel": HarnessHostileClientLiveChannel,
+		"HarnessHostileServer":            HarnessHostileServer,
 	})
 }
